@@ -7,6 +7,19 @@ V = os.path.dirname(os.path.dirname(os.path.abspath(__file__)))
 props = [json.loads(l) for l in open(os.path.join(V, 'properties.jsonl'))]
 
 CLAIMED = {
+    'C20': dict(
+        text='MC_Multi: TLC explores every interleaving of the creation and steps of two instances over 4 configurations '
+             '(PMSA v6, PMSA v7, VMSA v7, PMSA v6 without security extensions) x 4 configuration-sensitive programs and checks '
+             'that each instance is in exactly the state of its solo run. Every complete schedule TLC prints (quick: every 4th) '
+             'is replayed on real ArmV6 objects in one Python process without re-loading configurations, and every step is '
+             'judged by TLC against the specification under that instance\'s own configuration. Determinism: deep-copied '
+             'snapshots and instances with differing prior histories must produce identical step deltas (pair events judged '
+             'by TLC).',
+        note='two instances, 2-3 steps each, four small programs; configuration influence through the direct Registers API '
+             '(take_*_exception called without emulate_cycle) is outside the stepping interface of the property.',
+        technique='TLC model checking of the multi-instance spec + replay of every TLC schedule on the implementation judged by TLC',
+        ref='DESIGN.md §4 C20'),
+
     'C08': dict(
         text='MC_IT: TLC runs the whole specified machine (real fetch from memory, decode, condition, execute, IT advance, '
              'IRQ entry, exception return) on IT fc,mask + five register-incrementing instructions for every legal (firstcond, '
